@@ -190,6 +190,20 @@ class SqueezeByScaling(Contract):
     lo = output_min if output_min_constraints != bct.NONE else None
     hi = output_max if output_max_constraints != bct.NONE else None
     cl += S.in_bounds(k, lo, hi)
+    # The unconditional clauses above are refuted on the pinned tree (known finding F-C04a-squeeze: nothing is
+    # done when the start point is within 0.001 of the far bound).  Outside that guard region the function must
+    # work, PER UNIT - stated separately so that a new defect in these configurations is not masked:
+    import re as _re
+    b = tfc._t(bias).a
+    for nm, cb in S.in_bounds(k, lo, hi):
+      u = int(_re.search(r'u(\d+)\]', nm).group(1))
+      if monotonicity == 1 and hi is not None:
+        guard = P.lift(hi) - P.lift(b[0, u]) > 0.001
+      elif monotonicity == -1 and lo is not None:
+        guard = P.lift(b[0, u]) - P.lift(lo) > 0.001
+      else:
+        continue
+      cl.append((nm.replace('bounds-', 'in-range-when-the-start-is-clear-of-the-far-bound:'), guard.implies(cb)))
     kin = _kernel(bias, heights)
     cl += per_unit_unchanged(S.in_bounds(kin, lo, hi), tfc.Tensor(k, tfc.float32), kin, k.shape[1])
     return cl
